@@ -6,7 +6,33 @@ use std::sync::atomic::{AtomicU64, Ordering};
 
 static BEAT: AtomicU64 = AtomicU64::new(0);
 
-/// c20exec <seed> <quick|thorough> <rows.ndjson> <report.json>
+/// A reader that cuts its answers: by a script of prescribed answer sizes first, then by a fixed chunk (0 = in full).
+struct CutReader {
+    data: Vec<u8>,
+    pos: usize,
+    script: std::collections::VecDeque<usize>,
+    chunk: usize,
+}
+impl std::io::Read for CutReader {
+    fn read(&mut self, buf: &mut [u8]) -> std::io::Result<usize> {
+        BEAT.fetch_add(1, Ordering::Relaxed);
+        let mut n = buf.len().min(self.data.len() - self.pos);
+        if let Some(k) = self.script.pop_front() {
+            n = n.min(k);
+        } else if self.chunk > 0 {
+            n = n.min(self.chunk);
+        }
+        buf[..n].copy_from_slice(&self.data[self.pos..self.pos + n]);
+        self.pos += n;
+        if n == 0 {
+            // a reader at its end does not count as progress: the watchdog must see a loop that only polls it
+            BEAT.fetch_sub(1, Ordering::Relaxed);
+        }
+        Ok(n)
+    }
+}
+
+/// c20exec <seed> <quick|thorough> <rows.ndjson> <report.json> [fill_cases.ndjson]
 pub fn c20exec(args: &[String]) {
     quiet_panics();
     let seed: u64 = args[0].parse().unwrap();
@@ -24,7 +50,7 @@ pub fn c20exec(args: &[String]) {
             if now != last {
                 last = now;
                 since = std::time::Instant::now();
-            } else if since.elapsed().as_secs() > 60 {
+            } else if since.elapsed().as_secs() > 30 {
                 println!("{}", json!({"hang": *cur2.lock().unwrap()}));
                 std::process::exit(3);
             }
@@ -34,7 +60,7 @@ pub fn c20exec(args: &[String]) {
     let mut bad: Vec<Value> = vec![];
     let mut specials: Vec<Value> = vec![];
     let kinds = if quick { vec!["random", "uniform"] } else { vec!["random", "uniform", "periodic"] };
-    let mut run = |t: usize, e: usize, d: usize, kind: &str| -> (bool, usize, String) {
+    let mut run = |t: usize, e: usize, d: usize, kind: &str, script: &[usize], chunk: usize| -> (bool, usize, String) {
         let src: Vec<u8> = match kind {
             "uniform" => vec![b'A'; t],
             "periodic" => (0..t).map(|i| (i % 37) as u8).collect(),
@@ -43,12 +69,16 @@ pub fn c20exec(args: &[String]) {
                 (0..t).map(|_| { c = c.wrapping_mul(1103515245).wrapping_add(12345); (c >> 16) as u8 }).collect()
             }
         };
-        *current.lock().unwrap() = format!("T={t} E={e} D={d} {kind}");
+        *current.lock().unwrap() = format!("T={t} E={e} D={d} {kind} reader: script {script:?} then chunks of {chunk} (0 = full)");
         BEAT.fetch_add(1, Ordering::Relaxed);
         fastrand::seed(seed ^ ((t as u64) << 20) ^ e as u64);
         let r = std::panic::catch_unwind(|| {
             let mut out: Vec<u8> = vec![];
-            ruzstd::dictionary::create_raw_dict_from_source(std::io::Cursor::new(src), e, &mut out, d);
+            if script.is_empty() && chunk == 0 {
+                ruzstd::dictionary::create_raw_dict_from_source(std::io::Cursor::new(src), e, &mut out, d);
+            } else {
+                ruzstd::dictionary::create_raw_dict_from_source(CutReader { data: src, pos: 0, script: script.iter().cloned().collect(), chunk }, e, &mut out, d);
+            }
             out.len()
         });
         match r {
@@ -63,26 +93,64 @@ pub fn c20exec(args: &[String]) {
                     continue;
                 }
                 for kind in &kinds {
-                    n += 1;
-                    let (panic, len, msg) = run(t, e, d, kind);
-                    if panic {
-                        panics += 1;
-                        if bad.len() < 10 {
-                            bad.push(json!({"T": t, "E": e, "D": d, "source": kind, "panic": msg}));
+                    // readers: in full; and (on a part of the grid) cut into chunks of 1 / 7 / 100 bytes or with a short first answer
+                    let mut readers: Vec<(&str, Vec<usize>, usize)> = vec![("full", vec![], 0)];
+                    if t <= 10000 || !quick {
+                        readers.push(("chunk7", vec![], 7));
+                        readers.push(("first_short", vec![10], 0));
+                        if !quick || (t + e + d) % 2 == 0 {
+                            readers.push(("chunk100", vec![], 100));
+                            readers.push(("chunk1", vec![], 1));
                         }
                     }
-                    serde_json::to_writer(&mut w, &json!({"T": t, "E": e, "D": d, "source": kind, "panic": panic, "timeout": false, "len": len})).unwrap();
-                    w.write_all(b"\n").unwrap();
+                    for (rname, script, chunk) in readers {
+                        n += 1;
+                        let (panic, len, msg) = run(t, e, d, kind, &script, chunk);
+                        if panic {
+                            panics += 1;
+                            if bad.len() < 10 {
+                                bad.push(json!({"T": t, "E": e, "D": d, "source": kind, "reader": rname, "panic": msg}));
+                            }
+                        }
+                        serde_json::to_writer(&mut w, &json!({"T": t, "E": e, "D": d, "source": kind, "reader": rname, "panic": panic, "timeout": false, "len": len})).unwrap();
+                        w.write_all(b"\n").unwrap();
+                    }
                 }
+            }
+        }
+    }
+    // the (length, script) cases enumerated by TLC from ReservoirFill.tla, smallest sample (E = 16)
+    let mut fill_cases = 0u64;
+    if let Some(p) = args.get(4) {
+        use std::io::BufRead;
+        for line in std::io::BufReader::new(std::fs::File::open(p).unwrap()).lines() {
+            let c: Value = serde_json::from_str(&line.unwrap()).unwrap();
+            let t = c["T"].as_u64().unwrap() as usize;
+            let script: Vec<usize> = c["script"].as_array().map(|a| a.iter().map(|x| x.as_u64().unwrap() as usize).collect()).unwrap_or_default();
+            for d in [0usize, 8, 64] {
+                if quick && (t + d + script.len()) % 3 != 0 {
+                    continue;
+                }
+                fill_cases += 1;
+                n += 1;
+                let (panic, len, msg) = run(t, 16, d, "random", &script, 0);
+                if panic {
+                    panics += 1;
+                    if bad.len() < 10 {
+                        bad.push(json!({"T": t, "E": 16, "D": d, "source": "random", "reader": format!("script {script:?}"), "panic": msg}));
+                    }
+                }
+                serde_json::to_writer(&mut w, &json!({"T": t, "E": 16, "D": d, "source": "random", "reader": "script", "script": script, "panic": panic, "timeout": false, "len": len})).unwrap();
+                w.write_all(b"\n").unwrap();
             }
         }
     }
     w.flush().unwrap();
     // estimates beyond 32 bits (not representable in TLC): judged here against the documented promise only
     for (t, e, d) in [(1000usize, 1usize << 32, 512usize), (0, 1 << 32, 64), (5000, (1 << 32) + 5, 100), (300, (1 << 33), 0), (100000, u32::MAX as usize, 2048)] {
-        let (panic, len, msg) = run(t, e, d, "random");
+        let (panic, len, msg) = run(t, e, d, "random", &[], 0);
         let ok = !panic && len <= d;
         specials.push(json!({"T": t, "E": e, "D": d, "panic": panic, "len": len, "ok": ok, "message": msg}));
     }
-    write_json(&args[3], &json!({"runs": n, "panics": panics, "first": bad, "specials": specials}));
+    write_json(&args[3], &json!({"runs": n, "panics": panics, "first": bad, "specials": specials, "fill_cases": fill_cases}));
 }
